@@ -218,6 +218,24 @@ UNITS["pedersen_ctor"] = {
     "safety": {"*": ["C11", "C17"]},
 }
 
+# the once-initialised statics of src/ristretto.rs: the closures handed to OnceCell::get_or_init, under contract
+STATICS_SUBST = PCTOR_SUBST + [
+    ("static INSTANCE : OnceCell < [P ; 6 ] > = OnceCell :: new () ;", ""), ("static INSTANCE : OnceCell < [CP ; 6 ] > = OnceCell :: new () ;", ""),
+    ("INSTANCE . get_or_init (", "v_once_init ("),
+    ("(ExtensionDegree :: MINIMUM .. )", "v_range_from (ExtensionDegree :: MINIMUM )"), (". to_owned () + & i . to_string ()", ". v_concat_decimal (i )"),
+]
+UNITS["pedersen_statics"] = {
+    "prelude": PRELUDE_ALL + ["98_ristretto.rs"],
+    "contracts": ["pedersen_statics.vc"],
+    "pieces": types() + [
+        items("src/generators/pedersen_gens.rs", ["ExtensionDegree::MINIMUM"]),
+        fns("src/ristretto.rs", None, None, fns=["ristretto_masking_basepoints", "ristretto_compressed_masking_basepoints"],
+            opdesugar=False, subst=STATICS_SUBST, renames="enumerate"),
+        raw("proof fn vx_canary_axioms_ps() ensures false { broadcast use group_ring; }\n"),
+    ],
+    "safety": {"*": ["C11"]},
+}
+
 # the forwarding impls of src/ristretto.rs (FixedBytesRepr, Decompressable, FromUniformBytes, Compressable for the dalek types)
 GLUE_SUBST = [("CompressedRistretto :: as_bytes (self )", "self . dalek_as_bytes ()"), ("CompressedRistretto :: decompress (self )", "self . dalek_decompress ()"),
               ("RistrettoPoint :: from_uniform_bytes (bytes )", "RistrettoPoint :: dalek_from_uniform_bytes (bytes )"), ("RistrettoPoint :: compress (self )", "self . dalek_compress ()"),
